@@ -12,6 +12,7 @@
      30 cumulative invariant broken (balance < 0 or balance + withdrawn <> matured)
      31 a withdrawal paid more than the matured balance
      33 a validator's matured total exceeds what was credited to it   34 matured rewards exceed the total distributed
+     35 a block reported less to ConsumeRewards than it really credited   36 a reward year's real credits exceed its supply
      32 a WITHDRAW_REWARD amount that is negative or outside int64 was not refused                                  *)
 From Coq Require Import ZArith List Bool.
 From OL Require Import theories.Rewards gen.Facts_Consts.
@@ -169,13 +170,40 @@ Definition check_dump (o : opts) (b : blk) : list Z :=
   else let d := dump_interval o (b_ivs b) (ob_dump_v b) in
        flag 13 ((iv_index d =? ob_dump_index b) && (iv_height d =? ob_dump_height b)).
 
-Fixpoint check_blocks (o : opts) (c : cache) (i : Z) (bs : list blk) : list Z :=
+(* the books against what was really paid, on the implementation's records only:
+   35  per block: what was really credited (every vote's chunk delta + every delegator reward balance
+       delta) is at most what the block reported to ConsumeRewards (rwcum_tdist delta) — the books
+       never under-count the payments;
+   36  per reward year: what was really credited while that year's Distributed total was moving
+       (plus the total already booked when the observation starts) is at most the year's supply;
+       evaluated as long as no block of the chain had a forecast shorter than its cycle
+       ([short_forecast], the documented case in which a year's total can exceed its supply). *)
+Definition really_credited (b : blk) : Z := zsum (ob_vals b) + ob_deleg_total b.
+
+Fixpoint add_to_moved (acc : list Z) (pre : list year) (post : list (Z * Z)) (x : Z) : list Z :=
+  match acc, pre, post with
+  | a :: ra, y :: ry, (d, _) :: rp =>
+      (if y_dist y =? d then a else a + x) :: add_to_moved ra ry rp x
+  | _, _, _ => acc
+  end.
+
+Fixpoint check_blocks_acc (o : opts) (c : cache) (i : Z) (acc : list Z) (sf : bool) (bs : list blk) : list Z :=
   match bs with
   | [] => []
   | b :: r =>
       let res := check_blk o c b in
-      flat_map (fun code => [i; code]) (fst res ++ monitor_blk o b ++ flat_map check_wtx (b_wtxs b) ++ check_dump o b) ++ check_blocks o (snd res) (i + 1) r
+      let acc0 := match acc with [] => map y_dist (b_years b) | _ => acc end in
+      let acc1 := add_to_moved acc0 (b_years b) (ob_years b) (really_credited b) in
+      let sf1 := sf || short_forecast o (bt_of o b) (b_years b) (b_h b) in
+      let books :=
+        flag 35 (really_credited b <=? ob_consumed b)
+        ++ flag 36 (sf1 || forallb (fun p => fst p <=? snd p) (combine acc1 (o_shares o))) in
+      flat_map (fun code => [i; code])
+        (fst res ++ monitor_blk o b ++ books ++ flat_map check_wtx (b_wtxs b) ++ check_dump o b)
+      ++ check_blocks_acc o (snd res) (i + 1) acc1 sf1 r
   end.
+Definition check_blocks (o : opts) (c : cache) (i : Z) (bs : list blk) : list Z :=
+  check_blocks_acc o c i [] false bs.
 
 (* (chain index, block index, code) triples, flattened *)
 Fixpoint check_chains (j : Z) (cs : list chain) : list Z :=
